@@ -28,22 +28,44 @@ const (
 	TargetLabel = "containerd.io/snapshot.ref"
 	RemoteLabel = "containerd.io/snapshot/remote"
 	UserLabel   = "containerd.io/snapshot/verif.user"
+	// ExtLabel lies OUTSIDE the containerd.io/snapshot namespace (a label a backend may use to find the layer).
+	ExtLabel = "example.com/verif.layer-source"
+	// BadEmpty / BadLong: names that cannot be bolt bucket names ("" and a string over bolt's key limit).
+	BadEmpty = 1000
+	BadLong  = 1001
 )
 
 // Labels is the abstraction of a label map the model keeps.
 type Labels struct {
 	T int  `json:"t"` // target name, -1 = none
 	R bool `json:"r,omitempty"`
-	U int  `json:"u,omitempty"`
+	U int  `json:"u,omitempty"` // label inside the snapshot namespace: 0 absent, 1 = empty value, n >= 2 = value "n"
+	E int  `json:"e,omitempty"` // label outside the snapshot namespace, same encoding
 }
 
 var NoLabels = Labels{T: -1}
 
 func init() { log.L.Logger.SetOutput(io.Discard) }
 
-func Name(n int) string { return fmt.Sprintf("k%02d", n) }
+var longName = strings.Repeat("n", 40000)
+
+func Name(n int) string {
+	switch n {
+	case BadEmpty:
+		return ""
+	case BadLong:
+		return longName
+	}
+	return fmt.Sprintf("k%02d", n)
+}
 
 func ParseName(s string) (int, bool) {
+	if s == "" {
+		return BadEmpty, true
+	}
+	if len(s) > 1000 {
+		return BadLong, true
+	}
 	if len(s) != 3 || s[0] != 'k' {
 		return 0, false
 	}
@@ -59,10 +81,33 @@ func (l Labels) Map() map[string]string {
 	if l.R {
 		m[RemoteLabel] = "remote snapshot"
 	}
+	val := func(n int) string {
+		if n == 1 {
+			return ""
+		}
+		return strconv.Itoa(n)
+	}
 	if l.U > 0 {
-		m[UserLabel] = strconv.Itoa(l.U)
+		m[UserLabel] = val(l.U)
+	}
+	if l.E > 0 {
+		m[ExtLabel] = val(l.E)
 	}
 	return m
+}
+
+// Stored is what the metadata store keeps of a label map: empty-valued labels are dropped (boltutil.WriteLabels).
+func (l Labels) Stored() Labels {
+	if l.T == BadEmpty {
+		l.T = -1
+	}
+	if l.U == 1 {
+		l.U = 0
+	}
+	if l.E == 1 {
+		l.E = 0
+	}
+	return l
 }
 
 func (l Labels) Opts() []snapshots.Opt {
@@ -87,12 +132,20 @@ func AbsLabels(m map[string]string) (Labels, bool) {
 			l.T = n
 		case RemoteLabel:
 			l.R = true
-		case UserLabel:
-			n, err := strconv.Atoi(v)
-			if err != nil || n <= 0 {
-				ok = false
+		case UserLabel, ExtLabel:
+			n := 1
+			if v != "" {
+				var err error
+				n, err = strconv.Atoi(v)
+				if err != nil || n < 2 {
+					ok = false
+				}
 			}
-			l.U = n
+			if k == UserLabel {
+				l.U = n
+			} else {
+				l.E = n
+			}
 		default:
 			ok = false
 		}
@@ -105,7 +158,7 @@ func (l Labels) Coq() string {
 	if l.T >= 0 {
 		t = fmt.Sprintf("(Some %d)", l.T)
 	}
-	return fmt.Sprintf("(mkL %s %s %d)", t, hx.CoqBool(l.R), l.U)
+	return fmt.Sprintf("(mkL %s %s %d %d)", t, hx.CoqBool(l.R), l.U, l.E)
 }
 
 // Op is one API call with its fault script.
@@ -324,6 +377,8 @@ type RecFS struct {
 	// OnLiveUnmount is called (with the lock released) when Unmount hits a registered mountpoint.
 	OnLiveUnmount func(id int)
 	failedUnmount map[string]bool // mountpoints whose live Unmount was scripted to fail
+	// Created: labels of the last successful Mount per id (what the backend saw when the remote snapshot was created)
+	Created map[int]Labels
 	// OnLiveUnmountCall: same, with the id of the API call (concurrent harness).
 	OnLiveUnmountCall func(call, id int)
 }
@@ -408,6 +463,10 @@ func (f *RecFS) Mount(ctx context.Context, mountpoint string, labels map[string]
 		cp[k] = v
 	}
 	f.Table[mountpoint] = cp
+	if f.Created == nil {
+		f.Created = map[int]Labels{}
+	}
+	f.Created[d.Id] = l
 	return nil
 }
 
@@ -522,6 +581,10 @@ type Machine struct {
 	// Relaxed: the root is a crash image: left-over temp/orphan directories and the failures they cause
 	// (rename onto an orphan directory) are expected until the first Cleanup.
 	Relaxed bool
+	// UpdatedIDs: ids of snapshots whose labels were replaced by Update (their stored labels legitimately differ
+	// from the labels they were created with); UpdatedUnknown: an Update hit a snapshot whose id is unknown.
+	UpdatedIDs     map[int]bool
+	UpdatedUnknown bool
 	// CrashImage: the snapshotter was started on a crash image. The harness knows the ids of the snapshots it saw
 	// being created before the crash, but not of those the interrupted call was about; for those the clauses that
 	// need an id cannot be evaluated until the id shows up in a returned mount (never the case on a fresh root).
@@ -941,14 +1004,60 @@ func (m *Machine) oracle(o Op, res Res, evs []Event, before map[int]WalkEnt, dir
 	if m.Closed {
 		return
 	}
-	if res.Class == "other" && !m.Relaxed {
+	// a name that cannot be a bucket name ("" / oversized) makes the commit fail with whatever error bolt has for it
+	badName := (o.Op == "prepare" && o.L.T >= BadEmpty) || (o.Op == "commit" && o.Name >= BadEmpty)
+	if res.Class == "other" && !m.Relaxed && !badName {
 		m.problem("", "%s failed with an unclassified error while the snapshotter is open", o.Op)
+	}
+	if o.Op == "update" && res.Class == "info" {
+		if id, ok := m.idOf[o.Name]; ok {
+			if m.UpdatedIDs == nil {
+				m.UpdatedIDs = map[int]bool{}
+			}
+			m.UpdatedIDs[id] = true
+		} else {
+			m.UpdatedUnknown = true
+		}
+	}
+	// stored labels: what Stat/Walk show is what the caller passed minus empty-valued labels
+	if (o.Op == "prepare" || o.Op == "view") && (res.Class == "mounts" || res.Class == "unavail") {
+		if _, existed := before[o.Key]; !existed {
+			if e, ok := after[o.Key]; ok && e.L != o.L.Stored() {
+				m.problem("", "%s(%s): labels in metadata %+v differ from the labels passed %+v", o.Op, Name(o.Key), e.L, o.L.Stored())
+			}
+		}
 	}
 
 	// --- clause 1: Prepare naming a target ---
 	if o.Op == "prepare" && o.L.T >= 0 {
 		_, keyExisted := before[o.Key]
+		mountedOK := -1
+		for _, e := range evs {
+			if e.Ev == "mount" && e.OK {
+				mountedOK = e.D.Id
+			}
+		}
 		switch {
+		case mountedOK >= 0 && res.Class != "exists":
+			// the backend Mount succeeded but the call neither reported the target nor... : only an error is
+			// acceptable (no fallback after a successful Mount), and the key must stay behind as an active,
+			// not-remote snapshot that still carries the mount (the caller must not use the key again)
+			if res.Class == "ok" || res.Class == "mounts" || res.Class == "info" {
+				m.problem("", "Prepare(%s, target %q): backend Mount succeeded, internal commit failed, but the call returned success (%s) instead of an error", Name(o.Key), Name(o.L.T), res.Class)
+			}
+			ka, ok := after[o.Key]
+			if !ok || ka.Kind != 1 || (ka.L.R && !o.L.R) {
+				m.problem("", "Prepare(%s): after a failed internal commit the key is not an active, not-remote snapshot", Name(o.Key))
+			}
+			n := 0
+			for _, me := range v.Mounts {
+				if me.ID == mountedOK {
+					n++
+				}
+			}
+			if n != 1 {
+				m.problem("", "Prepare(%s): after a failed internal commit the backend mount of the key is gone", Name(o.Key))
+			}
 		case res.Class == "exists" && !keyExisted:
 			// the AlreadyExists is about the target
 			tb, targetExisted := before[o.L.T]
@@ -967,6 +1076,11 @@ func (m *Machine) oracle(o Op, res Res, evs []Event, before map[int]WalkEnt, dir
 				id, ok := m.idOf[o.L.T]
 				if !ta.L.R {
 					m.problem("", "target %s committed by Prepare is not marked remote", Name(o.L.T))
+				}
+				want := o.L.Stored()
+				want.R = true
+				if ta.L != want {
+					m.problem("", "target %s committed by Prepare carries labels %+v, the caller passed %+v (+ remote mark)", Name(o.L.T), ta.L, o.L.Stored())
 				}
 				n := 0
 				for _, me := range v.Mounts {
